@@ -27,6 +27,7 @@ import (
 	k8slabels "k8s.io/apimachinery/pkg/labels"
 	"k8s.io/apimachinery/pkg/util/intstr"
 
+	apiv3 "github.com/projectcalico/api/pkg/apis/projectcalico/v3"
 	"github.com/projectcalico/api/pkg/lib/numorstring"
 
 	"github.com/projectcalico/calico/libcalico-go/lib/backend/k8s/conversion"
@@ -64,16 +65,17 @@ type connJSON struct {
 	Proto, Port  int
 }
 type worldJSON struct {
-	SAs    []*kapiv1.ServiceAccount
-	NSs    []*kapiv1.Namespace
-	Pods   []*kapiv1.Pod
-	PodIPs []string
-	NPs    []*networkingv1.NetworkPolicy
-	Conns  []connJSON
+	SAs       []*kapiv1.ServiceAccount
+	NSs       []*kapiv1.Namespace
+	Pods      []*kapiv1.Pod
+	PodIPs    []string
+	NPs       []*networkingv1.NetworkPolicy
+	Conns     []connJSON
+	NoiseSeed uint64
 }
 
 func (w *world) toJSON() *worldJSON {
-	j := &worldJSON{SAs: w.sas, NSs: w.nss, NPs: w.nps}
+	j := &worldJSON{SAs: w.sas, NSs: w.nss, NPs: w.nps, NoiseSeed: w.noiseSeed}
 	for _, p := range w.pods {
 		j.Pods = append(j.Pods, p.pod)
 		j.PodIPs = append(j.PodIPs, p.ip.String())
@@ -91,7 +93,7 @@ func (w *world) toJSON() *worldJSON {
 }
 
 func (j *worldJSON) toWorld() *world {
-	w := &world{sas: j.SAs, nss: j.NSs, nps: j.NPs}
+	w := &world{sas: j.SAs, nss: j.NSs, nps: j.NPs, noiseSeed: j.NoiseSeed}
 	for i, p := range j.Pods {
 		w.pods = append(w.pods, podInfo{p, net.ParseIP(j.PodIPs[i])})
 	}
@@ -674,6 +676,7 @@ func malform(r *rng, np *networkingv1.NetworkPolicy) {
 }
 
 var replayFile = flag.String("replay", "", "replay file (written by the check) whose inputs are to be re-run")
+var history = flag.Bool("history", true, "process foreign Calico policies before/between the Kubernetes policies and convert those twice")
 var malformed = flag.Bool("malformed", true, "also generate objects the Kubernetes API validation would reject")
 var absentEgress = flag.Bool("absent-egress", true, "also generate policies without policyTypes that have egress rules")
 var reserved = flag.Bool("reserved", true, "also generate cases using Calico-reserved label keys as ordinary labels")
@@ -735,11 +738,12 @@ type connSpec struct {
 }
 
 type world struct {
-	sas   []*kapiv1.ServiceAccount
-	nss   []*kapiv1.Namespace
-	pods  []podInfo
-	nps   []*networkingv1.NetworkPolicy
-	conns []connSpec
+	noiseSeed uint64 // seed of the foreign (Calico) policies processed before / between the Kubernetes ones
+	sas       []*kapiv1.ServiceAccount
+	nss       []*kapiv1.Namespace
+	pods      []podInfo
+	nps       []*networkingv1.NetworkPolicy
+	conns     []connSpec
 }
 
 func mkNS(name string, labels map[string]string) *kapiv1.Namespace {
@@ -759,6 +763,8 @@ func main() {
 	enc := json.NewEncoder(os.Stdout)
 	conv := conversion.NewConverter()
 	npProc := updateprocessors.NewNetworkPolicyUpdateProcessor(model.KindKubernetesNetworkPolicy)
+	calicoNPProc := updateprocessors.NewNetworkPolicyUpdateProcessor(apiv3.KindNetworkPolicy)
+	gnpProc := updateprocessors.NewGlobalNetworkPolicyUpdateProcessor(apiv3.KindGlobalNetworkPolicy)
 	profProc := updateprocessors.NewProfileUpdateProcessor()
 	wepProc := updateprocessors.NewWorkloadEndpointUpdateProcessor()
 
@@ -890,35 +896,163 @@ func main() {
 				ver, addr, clabels(lm, sortedKeys(lm)), cbytesList(wep.ProfileIDs), clist(implPorts)))
 		}
 
-		var npsC, implC, selStrings []string
+		// ---- the conversion pipeline is exercised as a HISTORY in this one process:
+		//   foreign objects A ; the Kubernetes policies in order ; foreign objects B ; the Kubernetes policies in
+		//   reverse order.  The foreign objects are Calico NetworkPolicies / GlobalNetworkPolicies pushed through the
+		//   same update processors (policy-level serviceAccountSelector, rule ServiceAccounts.Selector,
+		//   namespaceSelector, selector) whose selector TEXTS are the very texts stage 1 produced for the Kubernetes
+		//   policies of this case plus texts from the same label pool, so that identical texts occur under both the
+		//   pcns. and the pcsa. prefix.  The property must hold for the output of every pass.
+		var npsC []string
 		nrules := 0
+		var texts []string
 		for _, np := range w.nps {
 			nrules += len(np.Spec.Ingress) + len(np.Spec.Egress)
 			npsC = append(npsC, cNP(np, r))
-			kvp, _ := conv.K8sNetworkPolicyToCalico(np) // a conversion error only drops rules; the KVPair is still returned
-			if kvp == nil {
-				clean = false
-				continue
-			}
-			out, err := npProc.Process(kvp)
-			if err != nil || len(out) != 1 {
-				clean = false
-				continue
-			}
-			k, ok := out[0].Key.(model.PolicyKey)
-			if !ok || k.Name != np.Name || k.Namespace != np.Namespace || k.Kind != model.KindKubernetesNetworkPolicy {
-				clean = false
-			}
-			pol := out[0].Value.(*model.Policy)
-			selStrings = append(selStrings, pol.Selector)
-			for _, rs := range [][]model.Rule{pol.InboundRules, pol.OutboundRules} {
-				for _, ru := range rs {
-					selStrings = append(selStrings, ru.SrcSelector, ru.DstSelector)
+			if kvp, _ := conv.K8sNetworkPolicyToCalico(np); kvp != nil {
+				if v3, ok := kvp.Value.(*apiv3.NetworkPolicy); ok {
+					texts = append(texts, v3.Spec.Selector)
+					for _, rs := range [][]apiv3.Rule{v3.Spec.Ingress, v3.Spec.Egress} {
+						for _, ru := range rs {
+							texts = append(texts, ru.Source.Selector, ru.Source.NamespaceSelector, ru.Destination.Selector, ru.Destination.NamespaceSelector)
+						}
+					}
 				}
 			}
-			s, c := cpolicy(pol)
-			clean = clean && c
-			implC = append(implC, s)
+		}
+		pool := []string{"team == 'a'", "team == 'b'", "env == 'prod'", "env == 'dev'", "has(team)", "all()", "app == 'web'", "tier == 'fe'",
+			"team in { 'a' }", "env in { 'dev', 'prod' }", "! has(env)", "kubernetes.io/metadata.name == 'prod'"}
+		var cand []string
+		for _, t := range texts {
+			if t != "" {
+				cand = append(cand, t)
+			}
+		}
+		nr := &rng{s: w.noiseSeed}
+		pickText := func() string {
+			if len(cand) > 0 && nr.chance(70) {
+				return pick(nr, cand)
+			}
+			return pick(nr, pool)
+		}
+		foreign := func(n int) {
+			for i := 0; i < n; i++ {
+				var kvp *model.KVPair
+				var proc interface {
+					Process(*model.KVPair) ([]*model.KVPair, error)
+				}
+				rules := []apiv3.Rule{{Action: apiv3.Allow,
+					Source:      apiv3.EntityRule{ServiceAccounts: &apiv3.ServiceAccountMatch{Selector: pickText()}},
+					Destination: apiv3.EntityRule{NamespaceSelector: pickText(), Selector: pickText()}}}
+				if nr.chance(50) {
+					p := apiv3.NewNetworkPolicy()
+					p.Name, p.Namespace = fmt.Sprintf("default.foreign%d", i), pick(nr, nsNames)
+					p.Spec.Tier = "default"
+					p.Spec.Selector = pickText()
+					p.Spec.ServiceAccountSelector = pickText()
+					if nr.chance(60) {
+						p.Spec.Ingress = rules
+					} else {
+						p.Spec.Egress = rules
+					}
+					kvp = &model.KVPair{Key: model.ResourceKey{Kind: apiv3.KindNetworkPolicy, Name: p.Name, Namespace: p.Namespace}, Value: p}
+					proc = calicoNPProc
+					tags["history:calico-np"] = true
+				} else {
+					p := apiv3.NewGlobalNetworkPolicy()
+					p.Name = fmt.Sprintf("default.gforeign%d", i)
+					p.Spec.Tier = "default"
+					p.Spec.Selector = pickText()
+					if nr.chance(60) {
+						p.Spec.ServiceAccountSelector = pickText()
+					}
+					if nr.chance(60) {
+						p.Spec.NamespaceSelector = pickText()
+					}
+					if nr.chance(50) {
+						p.Spec.Ingress = rules
+					}
+					kvp = &model.KVPair{Key: model.ResourceKey{Kind: apiv3.KindGlobalNetworkPolicy, Name: p.Name}, Value: p}
+					proc = gnpProc
+					tags["history:calico-gnp"] = true
+				}
+				if _, err := proc.Process(kvp); err != nil {
+					panic(err)
+				}
+			}
+		}
+		type passOut struct {
+			implC, selStrings []string
+			clean             bool
+		}
+		runPass := func(order []int) passOut {
+			po := passOut{implC: make([]string, len(w.nps)), clean: true}
+			for _, idx := range order {
+				np := w.nps[idx]
+				kvp, _ := conv.K8sNetworkPolicyToCalico(np) // a conversion error only drops rules; the KVPair is still returned
+				if kvp == nil {
+					po.clean = false
+					continue
+				}
+				out, err := npProc.Process(kvp)
+				if err != nil || len(out) != 1 {
+					po.clean = false
+					continue
+				}
+				k, ok := out[0].Key.(model.PolicyKey)
+				if !ok || k.Name != np.Name || k.Namespace != np.Namespace || k.Kind != model.KindKubernetesNetworkPolicy {
+					po.clean = false
+				}
+				pol := out[0].Value.(*model.Policy)
+				po.selStrings = append(po.selStrings, pol.Selector)
+				for _, rs := range [][]model.Rule{pol.InboundRules, pol.OutboundRules} {
+					for _, ru := range rs {
+						po.selStrings = append(po.selStrings, ru.SrcSelector, ru.DstSelector)
+					}
+				}
+				s, c := cpolicy(pol)
+				po.clean = po.clean && c
+				po.implC[idx] = s
+			}
+			var compact []string
+			for _, s := range po.implC {
+				if s != "" {
+					compact = append(compact, s)
+				}
+			}
+			po.implC = compact
+			return po
+		}
+		var fwd, rev []int
+		for i := range w.nps {
+			fwd = append(fwd, i)
+			rev = append([]int{i}, rev...)
+		}
+		var passes []passOut
+		if w.noiseSeed != 0 {
+			foreign(1 + nr.intn(3))
+			passes = append(passes, runPass(fwd))
+			foreign(1 + nr.intn(3))
+			passes = append(passes, runPass(rev))
+			tags["history:2-passes"] = true
+		} else {
+			passes = append(passes, runPass(fwd))
+		}
+		// one case per DISTINCT output (normally exactly one: the conversion does not depend on the history)
+		var distinct []passOut
+		for _, po := range passes {
+			dup := false
+			for _, q := range distinct {
+				if strings.Join(q.implC, "|") == strings.Join(po.implC, "|") && q.clean == po.clean {
+					dup = true
+				}
+			}
+			if !dup {
+				distinct = append(distinct, po)
+			}
+		}
+		if len(distinct) > 1 {
+			tags["history:outputs-differ"] = true
 		}
 
 		var connsC []string
@@ -933,34 +1067,38 @@ func main() {
 			connsC = append(connsC, fmt.Sprintf("(%s, %s, %d%%N, %d%%N)", end(c.src, c.srcIP), end(c.dst, c.dstIP), c.proto, c.port))
 		}
 
-		// the real selector evaluator on the real labels, for every distinct selector of the converted policies
-		var evalsC []string
-		seenSel := map[string]bool{}
-		for _, ss := range selStrings {
-			if ss == "" || seenSel[ss] {
-				continue
+		for _, po := range distinct {
+			implC, selStrings := po.implC, po.selStrings
+			clean := clean && po.clean
+			// the real selector evaluator on the real labels, for every distinct selector of the converted policies
+			var evalsC []string
+			seenSel := map[string]bool{}
+			for _, ss := range selStrings {
+				if ss == "" || seenSel[ss] {
+					continue
+				}
+				seenSel[ss] = true
+				sel, err := parser.Parse(ss)
+				if err != nil {
+					continue
+				}
+				var bs []string
+				for _, eff := range effLabels {
+					bs = append(bs, fmt.Sprint(sel.Evaluate(eff)))
+				}
+				evalsC = append(evalsC, fmt.Sprintf("(%s, %s)", cnode(sel.Root()), clist(bs)))
 			}
-			seenSel[ss] = true
-			sel, err := parser.Parse(ss)
-			if err != nil {
-				continue
-			}
-			var bs []string
-			for _, eff := range effLabels {
-				bs = append(bs, fmt.Sprint(sel.Evaluate(eff)))
-			}
-			evalsC = append(evalsC, fmt.Sprintf("(%s, %s)", cnode(sel.Root()), clist(bs)))
-		}
 
-		coq := fmt.Sprintf("(Build_case %s (Build_cluster %s %s) %s %s %s %v %v %s %s)",
-			clist(npsC), clist(clusterC), clist(sasC), clist(profilesC), clist(podsC), clist(implC), clean, infer, clist(connsC), clist(evalsC))
-		var tl []string
-		for t := range tags {
-			tl = append(tl, t)
+			coq := fmt.Sprintf("(Build_case %s (Build_cluster %s %s) %s %s %s %v %v %s %s)",
+				clist(npsC), clist(clusterC), clist(sasC), clist(profilesC), clist(podsC), clist(implC), clean, infer, clist(connsC), clist(evalsC))
+			var tl []string
+			for t := range tags {
+				tl = append(tl, t)
+			}
+			sort.Strings(tl)
+			_ = enc.Encode(line{Coq: coq, NT: nrules > 0, Key: strings.Join(npsC, "|") + "#" + strings.Join(podsC, "|") + "#" + strings.Join(clusterC, "|") + "#" + strings.Join(sasC, "|") + "#" + strings.Join(connsC, "|"),
+				Sample: map[string]any{"policies": npsC, "converted": implC}, Tags: tl, World: w.toJSON()})
 		}
-		sort.Strings(tl)
-		_ = enc.Encode(line{Coq: coq, NT: nrules > 0, Key: strings.Join(npsC, "|") + "#" + strings.Join(podsC, "|") + "#" + strings.Join(clusterC, "|") + "#" + strings.Join(sasC, "|") + "#" + strings.Join(connsC, "|"),
-			Sample: map[string]any{"policies": npsC, "converted": implC}, Tags: tl, World: w.toJSON()})
 	}
 
 	if *replayFile != "" {
@@ -1027,6 +1165,9 @@ func main() {
 	for i := 0; i < *n; i++ {
 		tags := map[string]bool{}
 		w := &world{}
+		if *history && r.chance(85) {
+			w.noiseSeed = r.next() | 1
+		}
 		for _, nsn := range nsNames {
 			ns := mkNS(nsn, genLabels(r, nsKeys, nsVals, 50))
 			if r.chance(5) {
